@@ -52,7 +52,7 @@ TProc ==
                     IF Rec.rt.doc.k # "I" /\ Eq(Rec.rt.doc, Rec.rt.b, Rec.rt.opts) THEN TRUE
                     ELSE IF MergeRtKnown(Rec) THEN PrintT(<<"JDV-KNOWN", Rec.sess, "C14", MergeRtName(Rec)>>)
                     ELSE FailLine("C14", "round-trip-does-not-reproduce-b")
-     /\ (Judge("C05") /\ o.kind = "lib" /\ Rec.mode = "diff" /\ ~Rec.lib.err) =>
+     /\ (Judge("C05") /\ o.kind = "lib" /\ Rec.mode = "diff" /\ ~Rec.lib.err /\ ~(i.o /\ i.obad)) =>
              IF (pr.exit = 0) <=> Rec.lib.eq THEN TRUE
              ELSE IF PrecisionKnown(Rec) THEN PrintT(<<"JDV-KNOWN", Rec.sess, "C05", "diff-ignores-precision">>)
              ELSE FailLine("C05", <<"exit-vs-equals", pr.exit>>)
